@@ -258,6 +258,7 @@ class Sharing:
     @staticmethod
     def nontrivial(c, res): return len(c['writes']) >= 2
 
+MODEL_TARGETS = ('Model/Sharing.vo',)
 SUITES = [Operands, Sharing]
 RULE = ('suite 0: every case generated for C01-C04, C06-C12, C14, C17, C18 (all operations and argument combinations of those properties, '
         'unsorted axes, metadata with list values) is run with a deep snapshot (values bytes, dtype, dims, labels and their dtype, axis '
